@@ -20,11 +20,11 @@ from .gen.formulas import Config, FormulaGen
 TRUSTED = [
     "Coq 8.16.1 kernel; vm_compute for running the model on the correspondence cases; no native_compute",
     "core/Sem.v (values, eval) is the semantic specification the theorems are stated against",
-    "standard-library axioms reported by Print Assumptions for the semantic theorems: "
-    "ClassicalDedekindReals.sig_forall_dec, ClassicalDedekindReals.sig_not_dec, "
+    "standard-library axioms reported by Print Assumptions for the semantic theorems (C05_subst_lemma_partial, "
+    "C05_subst_lemma_mss_refuted): ClassicalDedekindReals.sig_forall_dec, "
     "FunctionalExtensionality.functional_extensionality_dep, Classical_Prop.classic, "
     "Description.constructive_definite_description (via Reals and excluded_middle_informative of core/Sem.v); "
-    "the syntactic theorems are closed under the global context",
+    "the syntactic theorems (mgs_mss_sym_refuted, bound_untouched_*, the example) are closed under the global context",
     "hand models models/Substituter.v (substituter.py + identitydag.py), models/Ctors.v (FormulaManager constructors), "
     "models/TypeChecker.v (create_node's type check), models/Oracles.v fv (get_free_variables), tied to the implementation "
     "by this run's correspondence cases (exact structural equality, counts below)",
@@ -32,11 +32,23 @@ TRUSTED = [
     "harness/refeval.py, the independent evaluator used by the property-level search oracle",
 ]
 ASSUMPTIONS = [
-    "semantic theorems are stated for the fragment frag (no Pow node, no array-value node) of formula and replacement terms: "
-    "core/Sem.v gives Pow on Int operands an Int value while the type checker (and the constant folding of mgr.Pow) make it Real; "
-    "the constant-array normalisation of mgr.Array (sorting, dropping default-valued entries) is covered by correspondence only",
+    "the substitution lemma is PROVED for the default strategy (MGS) on the fragment frag of the formula: every operator except "
+    "Pow, array values, ToReal, BV rotate / zero-extend / sign-extend; And/Or/Plus/Times with >= 2 arguments, applications with "
+    ">= 1 argument, non-empty quantifier prefixes, canonical Real constants, no negation directly under a negation or as a divisor "
+    "(all true of nodes of a FormulaManager except the excluded operators); replacement terms are arbitrary except that a "
+    "replacement of the form (not y) needs y Bool-valued by construction (anything but an array read at an ITE leaf) and a Real "
+    "constant replacement has a non-zero denominator; interpretations: Bool symbols / Bool functions denote Booleans. "
+    "Outside the fragment (Pow: core/Sem.v gives Pow on Int operands an Int value while the type checker and mgr.Pow make it "
+    "Real; ToReal and BV rotate/extend need the type-preservation theorem, which is not proved) the lemma is checked by the "
+    "refeval search oracle only",
+    "interp_lemma and subst_typed are not proved: exactness of interpretations and type preservation are covered by the "
+    "correspondence (create_node's type check is part of the model) and by the refeval search oracle",
+    "the substitution lemma for MSSubstituter and the coincidence of MGS and MSS on symbol keys are REFUTED "
+    "(C05_subst_lemma_mss_refuted, C05_mgs_mss_sym_refuted); the witness is replayed on the implementation on every run",
     "array values are compared with their assignments in a canonical order (the code orders them by id(), i.e. memory addresses)",
     "substitution maps whose constant keys make two indexes of one array value collide are not generated (the surviving value depends on id() order)",
+    "substitution maps that replace the constant exponent of a Pow by another constant are not generated (mgr.Pow then folds through "
+    "Python float pow for non-integer exponents, which models/Ctors.v mk_pow documents as outside the model)",
 ]
 RULE = ("fresh Environment per batch; formulas from harness/gen/formulas.py (all theories, nested/shadowing quantifiers, shared "
         "sub-DAGs); maps: symbol keys (free, bound, absent), compound keys drawn from the formula's own sub-terms incl. parent/"
@@ -76,9 +88,29 @@ def canon_args(n):
     return tuple(out)
 
 
+def ctopo(roots):
+    """tocoq.topo with array-value children in canonical order (args() of an array value is ordered
+    by id(), i.e. by memory addresses: anything derived from it would not be reproducible)."""
+    seen, order = set(), []
+    stack = [(r, False) for r in reversed(list(roots))]
+    while stack:
+        n, done = stack.pop()
+        if done:
+            order.append(n)
+            continue
+        if n in seen:
+            continue
+        seen.add(n)
+        stack.append((n, True))
+        for c in reversed(canon_args(n)):
+            if c not in seen:
+                stack.append((c, False))
+    return order
+
+
 def with_terms(roots, body_fn):
     names, lines = {}, []
-    for i, n in enumerate(tocoq.topo(roots)):
+    for i, n in enumerate(ctopo(roots)):
         nm = "n%d" % i
         names[n] = nm
         lines.append("let %s := T %s [%s] in" % (nm, tocoq.opr(n), "; ".join(names[c] for c in canon_args(n))))
@@ -100,20 +132,20 @@ class Case(object):
 
 
 def subterms(f):
-    return [n for n in tocoq.topo([f])]
+    return ctopo([f])
 
 
 def parents_of(f):
     par = {}
-    for n in tocoq.topo([f]):
-        for c in n.args():
+    for n in ctopo([f]):
+        for c in canon_args(n):
             par.setdefault(c, []).append(n)
     return par
 
 
 def bound_vars(f):
     out = []
-    for n in tocoq.topo([f]):
+    for n in ctopo([f]):
         if n.is_quantifier():
             out += list(n.quantifier_vars())
     return out
@@ -157,7 +189,9 @@ class MapGen(object):
         par = parents_of(f)
         subs = {}
         nkeys = r.choice([1, 2, 2, 3, 4, 5])
-        while len(subs) < nkeys and nodes:
+        for _ in range(3 * nkeys):
+            if len(subs) >= nkeys or not nodes:
+                break
             k = r.choice(nodes)
             chain = [k]
             if r.random() < 0.5 and par.get(k):           # overlap: parent (and grand-parent) of a key
@@ -166,12 +200,10 @@ class MapGen(object):
                 if r.random() < 0.4 and par.get(p):
                     chain.append(r.choice(par[p]))
             if r.random() < 0.3 and k.args():             # overlap: child of a key
-                chain.append(r.choice(k.args()))
+                chain.append(r.choice(canon_args(k)))
             for c in chain:
                 if c.is_term() and c not in subs:
                     subs[c] = self.value_for(self.ty(c), f)
-            if len(subs) >= nkeys:
-                break
         return subs
 
     def chain_map(self, f):
@@ -183,7 +215,7 @@ class MapGen(object):
         subs = {}
         for _ in range(r.choice([1, 1, 2])):
             p = r.choice(cands)
-            c = r.choice(p.args())
+            c = r.choice(canon_args(p))
             if not c.is_term():
                 continue
             v = subs.get(c)
@@ -311,6 +343,15 @@ def array_collision(f, subs):
     return False
 
 
+def pow_exponent_replaced(f, subs):
+    """A constant exponent of a Pow replaced by another constant: mgr.Pow then folds through Python's
+    float pow for non-integer exponents, which models/Ctors.v mk_pow leaves out (documented there)."""
+    for n in ctopo([f] + list(subs.values())):
+        if n.node_type() == op.POW and n.arg(1) in subs and subs[n.arg(1)].is_constant():
+            return True
+    return False
+
+
 def gen_batch(seed, batch, tier):
     """Deterministic in (seed, batch): list of Case with the implementation's results."""
     rnd = random.Random("c05|%d|%d" % (seed, batch))
@@ -340,7 +381,7 @@ def gen_batch(seed, batch, tier):
                 subs = {"sym": mg.sym_map, "term": mg.term_map, "chain": mg.chain_map, "binder": mg.binder_map}[kind](f)
                 if kind != "sym":
                     subs = mg.spoil(subs, f)
-            if array_collision(f, subs):
+            if array_collision(f, subs) or pow_exponent_replaced(f, subs):
                 continue
             c = Case()
             c.f, c.subs, c.interps, c.kind, c.batch, c.index = f, list(subs.items()), list(ip.items()), kind, batch, len(cases)
@@ -479,6 +520,59 @@ def quantifier_free(n):
     return not any(m.is_quantifier() for m in tocoq.topo([n]))
 
 
+def defect_class(c, which):
+    """Stable identifier of the known way in which MSS breaks the lemma on symbol keys: a value
+    (not y) whose y is a key again - the rebuilt node not(not y) is normalised to y by mgr.Not and
+    looked up a second time."""
+    keys = set(k for k, _ in c.subs)
+    if which == "MSSubstituter" and any(v.is_not() and v.arg(0) in keys for _, v in c.subs):
+        return "mss:double-negation-collapse-resubstituted"
+    return None
+
+
+def directed_witness(chk):
+    """The closed witness of C05_subst_lemma_mss_refuted / C05_mgs_mss_sym_refuted on the implementation."""
+    env = Environment()
+    m = env.formula_manager
+    b = m.Symbol("b")
+    f, subs = m.Not(b), {b: m.Not(b)}
+    mgs = MGSubstituter(env).substitute(f, dict(subs))
+    mss = MSSubstituter(env).substitute(f, dict(subs))
+    chk.count(("witness", "mss-not"))
+    if mgs is not b:
+        chk.violation({"kind": "input", "what": "MGSubstituter: Not(b)[b := Not(b)] should be b (value: not not b)",
+                       "formula": "(! b)", "subs": [["b", "(! b)"]], "observed": mgs.serialize()}, key="mgs:witness")
+    if mss is not b:
+        chk.violation({"kind": "input", "what": "MSSubstituter(env).substitute(Not(b), {b: Not(b)}) = %s; the substitution lemma "
+                       "requires a formula equivalent to b (MGSubstituter returns b)" % mss.serialize(),
+                       "formula": "(! b)", "subs": [["b", "(! b)"]], "observed": mss.serialize(), "expected": "b",
+                       "theorem": "C05_subst_lemma_mss_refuted, C05_mgs_mss_sym_refuted",
+                       "repro": "from pysmt.shortcuts import *; from pysmt.substituter import MSSubstituter; b = Symbol('b'); "
+                                "print(MSSubstituter(get_env()).substitute(Not(b), {b: Not(b)}))"},
+                      key="mss:double-negation-collapse-resubstituted")
+
+
+def directed_witness_key_raises(chk):
+    """The closed witness of C05_mgs_key_raises_witness on the implementation."""
+    from pysmt.typing import REAL
+    env = Environment()
+    m = env.formula_manager
+    x, r = m.Symbol("x", REAL), m.Symbol("r", REAL)
+    t = m.LT(m.Pow(x, m.Real(2)), m.Real(1))
+    chk.count(("witness", "mgs-key-raises"))
+    try:
+        res = MGSubstituter(env).substitute(t, {t: m.TRUE(), m.Real(2): r})
+    except Exception as ex:   # noqa
+        res = "raises %s" % type(ex).__name__
+    if res is not m.TRUE():
+        chk.violation({"kind": "input", "what": "MGSubstituter: the formula itself is a key, the documented most-general result is its "
+                       "replacement; observed: %s (the children of a key are rebuilt first, mgr.Pow rejects the non-constant exponent)" % (res,),
+                       "formula": t.serialize(), "subs": [[t.serialize(), "True"], ["2.0", "r"]], "expected": "True", "observed": str(res),
+                       "theorem": "C05_mgs_key_raises_witness",
+                       "repro": "x, r = Symbol('x', REAL), Symbol('r', REAL); t = LT(Pow(x, Real(2)), Real(1)); t.substitute({t: TRUE(), Real(2): r})"},
+                      key="mgs:raises-below-a-key")
+
+
 def semantic_oracle(chk, c, rnd, ninterp):
     """Returns (#interpretations compared, violation description or None)."""
     res = c.mgs
@@ -530,7 +624,7 @@ def semantic_oracle(chk, c, rnd, ninterp):
                     continue
                 done += 1
                 if type(got) is not type(want) or got != want:
-                    return done, {"what": "%s: value of the result differs from the value of the original under the updated interpretation" % which,
+                    return done, {"defect_class": defect_class(c, which),"what": "%s: value of the result differs from the value of the original under the updated interpretation" % which,
                                   "strategy": which, "result": r.serialize()[:1500],
                                   "value_of_result": repr(got), "value_of_original_under_updated_interpretation": repr(want),
                                   "interpretation": {"%s" % (k[0],): repr(v) for k, v in sorted(I.symbols.items(), key=lambda kv: kv[0][0])}}
@@ -568,7 +662,7 @@ def check_batch_cases(chk, batch, env, cases, rnd, tier, stats):
             d.update(bad)
             d.update({"kind": "input", "oracle": "harness/refeval.py on both sides of the substitution lemma",
                       "repro": "./check C05 --replay <this file>"})
-            chk.violation(d, key="sem:%s" % (c.f.serialize()[:80],))
+            chk.violation(d, key=bad.get("defect_class") or "sem:%s" % (c.f.serialize()[:80],))
 
 
 def run(tier):
@@ -577,6 +671,8 @@ def run(tier):
     lib.clean_cases(chk.dir)
     ok = chk.prove()
     chk.note("proof closure: %s" % ("ok" if ok else "FAILED " + lib.proof_failure_summary(chk)))
+    directed_witness(chk)
+    directed_witness_key_raises(chk)
     nb = 10 if tier == "quick" else 60
     stats = {"kinds": {}, "raises": 0, "changed": 0, "mgs_ne_mss": 0, "semantic_evals": 0, "semantic_cases": 0}
     all_cases, files, canon_files = [], [], []
